@@ -2,12 +2,13 @@
 # usage: tools/verify_seed.sh <Cxx> <k>   — independently confirms a seeded mutant in its scratch worktree /tmp/seed/Cxx:
 #   patch applies, tree builds, the repository's own suite still passes, the demonstration FAILS with the patch and PASSES without.
 # On success copies it to /verif/seeded/Cxx-k/ (patch.diff, demo, README.md) and writes meta.json skeleton.
-ID=$1; K=$2
-WT=/tmp/seed/$ID; S=$WT/SEED/$K
+ID=$1; K=$2; ROOT=${SEEDROOT:-/tmp/seed}; DK=${3:-$K}   # DK = number under /verif/seeded (round 2 uses 3,4)
+WT=$ROOT/$ID; S=$WT/SEED/$K
 export GOFLAGS=-mod=mod GOPROXY=off GOSUMDB=off GOTOOLCHAIN=local
 [ -f $S/patch.diff ] || { echo "no $S/patch.diff"; exit 2; }
 DEST=$(grep -o 'copy `demo_test.go` to `[^`]*`' $S/README.md | head -1 | sed 's/.*to `\(.*\)`/\1/')
 CMD=$(grep -o '`go test [^`]*-run [^`]*`' $S/README.md | head -1 | tr -d '`')
+[ -n "$CMD" ] || CMD=$(grep -E '^ +go test .*-run ' $S/README.md | head -1 | sed 's/^ *//')
 [ -n "$DEST" ] && [ -n "$CMD" ] || { echo "cannot parse demo location/command from README ($DEST | $CMD)"; exit 2; }
 cd $WT || exit 2
 git checkout -q -- . ; rm -f "$DEST"
@@ -40,10 +41,10 @@ $CMD > /tmp/demo_without.$$ 2>&1; rc_without=$?
 rm -f "$DEST"
 echo "   demo with patch: exit $rc_with ; without: exit $rc_without"
 if [ "$suite" = "suite-ok" ] && [ $rc_with -ne 0 ] && [ $rc_without -eq 0 ]; then
-  D=/verif/seeded/$ID-$K; mkdir -p $D
+  D=/verif/seeded/$ID-$DK; mkdir -p $D
   cp $S/patch.diff $S/demo_test.go $S/README.md $D/
   grep -E -- '--- FAIL|FAIL|Error|seed' /tmp/demo_with.$$ | head -5 > $D/demo_with_patch.txt
-  python3 - "$D" "$ID" "$K" "$DEST" "$CMD" "$touched" <<'PY'
+  python3 - "$D" "$ID" "$DK" "$DEST" "$CMD" "$touched" <<'PY'
 import json,sys,re
 d,pid,k,dest,cmd,touched=sys.argv[1:7]
 readme=open(d+'/README.md').read()
@@ -54,7 +55,7 @@ meta={"property":pid,"mutant":int(k),"files_touched":touched.split(),
  "breaks":sec('Clause broken'),"needs_to_manifest":sec('Needs to manifest'),
  "demo":{"copy_to":dest,"command":cmd},
  "confirmed":{"patch_applies":True,"builds":True,"repo_suite_155_pass_with_patch":True,"demo_fails_with_patch":True,"demo_passes_without_patch":True,
-              "how":"tools/verify_seed.sh in scratch worktree /tmp/seed/%s (HEAD of /repo at seeding time)"%pid},
+              "how":"tools/verify_seed.sh in the seeder's scratch worktree of %s (HEAD of /repo at seeding time)"%pid},
  "checks_run":[]}
 json.dump(meta,open(d+'/meta.json','w'),indent=1)
 PY
